@@ -106,12 +106,12 @@ package filterstorage
 //@   ensures every-entry-is-applied-or-reported: len(fls) + idxSkipped - old(idxSkipped) == len(r.Filters)
 //@   ensures len(fls) <= len(r.Filters) && (forall k int :: 0 <= k && k < len(fls) ==> fls[k] != nil && fresh(fls[k]))
 //@   ensures applied-entries-are-usable-ones: forall k int :: 0 <= k && k < len(fls) ==> fromOK(r, len(r.Filters) - 1, fls[k].id)
-//@   loop 1 invariant -1 <= #i && #i < len(r.Filters) && len(fls) + idxSkipped - old(idxSkipped) == #i + 1 && idxSkipped >= old(idxSkipped) && fresh(fls) && (forall k int :: 0 <= k && k < len(fls) ==> fls[k] != nil && fresh(fls[k]))
+//@   loop 1 invariant -1 <= #i && #i < len(r.Filters) && len(fls) + idxSkipped - old(idxSkipped) == #i + 1 && idxSkipped >= old(idxSkipped) && fresh(fls) && cap(fls) == len(r.Filters) && (forall k int :: 0 <= k && k < len(fls) ==> fls[k] != nil && fresh(fls[k]))
 //@   loop 1 invariant forall k int :: 0 <= k && k < len(fls) ==> fromOK(r, #i, fls[k].id)
 
 //@ func (*Default).refresh
 //@   property C13
-//@   requires ST(s) && s.ruleListIdxRefr != nil && (s.ruleLists == nil || allocated(s.ruleLists))
+//@   requires ST(s) && ref(ctx) != 0 && s.ruleListIdxRefr != nil && (s.ruleLists == nil || allocated(s.ruleLists))
 //@   modifies heap, replaceCalls, replaces, cleanups, sbLen, copyFailed, lastRefreshText, storageText, engineText, cacheClears, rlRefreshOK, idxSkipped
 //@   ensures any-failure-keeps-every-installed-list: err != nil ==> s.ruleLists == old(s.ruleLists)
 //@   ensures installed-lists-are-new-or-previous: err == nil ==> (forall id filter.ID :: has(s.ruleLists, id) ==>
